@@ -10,7 +10,8 @@
 (* initial states enumerate the prior states C03's quantifier lists.       *)
 (* Switches reproduce historical defects: SaveSameDirFirst (F9),           *)
 (* SeedAllGoverning (F8), RemoveByIdentity (F14, still present in /repo),  *)
-(* QueueKept (F18), ManifestWins (F23), ForgetUnlinked (F20).              *)
+(* QueueKept (F18), ManifestWins (F23), ForgetUnlinked (F20),              *)
+(* NoOverwriteOnRename (F34), AdoptListed (F36).                           *)
 (***************************************************************************)
 EXTENDS UpdateRef, Json, SequencesExt
 
@@ -20,6 +21,8 @@ CONSTANTS SaveSameDirFirst,   \* TRUE: among Manifests of one directory the late
           QueueKept,          \* TRUE: merging hashes into the kept entry queues ITS Manifest too (fixed, F18)
           ManifestWins,       \* TRUE: a MANIFEST entry survives de-duplication against a plain one (fixed, F23)
           ForgetUnlinked,     \* TRUE: a Manifest whose MANIFEST entry is dropped is forgotten (fixed, F20)
+          NoOverwriteOnRename,\* TRUE: a Manifest is not (de)compressed onto an existing file (fixed, F34)
+          AdoptListed,        \* TRUE: an adopted Manifest listed as a plain file gets a MANIFEST entry (fixed, F36)
           Export
 
 VARIABLES hreq,       \* requested hash names, sorted (<<"SHA1">> or <<"MD5", "SHA1">>)
@@ -76,7 +79,10 @@ DMStates == {"absent", "reg", "regstale", "unreg", "unreginvalid"}
 (*   mfdata     d/Manifest also listed as DATA, BEFORE its MANIFEST entry (F23); mfdata2: after   *)
 (*   hashsplit  d/x listed in d/Manifest with SHA1 and in the top-level one with MD5, both        *)
 (*              requested (F18)                                                                   *)
-Extras == {"none", "ignd", "mfdata", "mfdata2", "hashsplit"}
+(*   gzgarbage  a file d/Manifest.gz that is no Manifest, next to the referenced d/Manifest (F34)   *)
+(*   dmdata     d/Manifest valid, NOT referenced, but listed as DATA in the top-level Manifest (F36) *)
+Extras == {"none", "ignd", "mfdata", "mfdata2", "hashsplit", "gzgarbage", "dmdata"}
+DGZ == <<"d", "Manifest.gz">>
 MData(p, k) == En("DATA", p, 100 + k, << <<"SHA1", VerName(k)>> >>)
 
 ScenarioX(ast, xloc, xstale, dms, gone, extra) ==
@@ -95,18 +101,20 @@ ScenarioX(ast, xloc, xstale, dms, gone, extra) ==
                                ELSE Ok(<<"d", "x">>, xc) >> ELSE <<>>)
                    \o << Ok(<<"da", "y">>, "c0") >>
                    \o (IF gone THEN << Ok(<<"d", "gone">>, "c0") >> ELSE <<>>)
-                   \o (IF extra = "mfdata" THEN << MData(<<"d", "Manifest">>, 0) >> ELSE <<>>)
+                   \o (IF extra \in {"mfdata", "dmdata"} THEN << MData(<<"d", "Manifest">>, 0) >> ELSE <<>>)
                    \o mref
                    \o (IF extra = "mfdata2" THEN << MData(<<"d", "Manifest">>, 0) >> ELSE <<>>)
                    \o << En("DIST", <<"dist.tar">>, 7, << <<"SHA1", "jdist">> >>) >>
     IN [ nodes |-> << MfNode(Top, 0), FileNd(<<"a">>, "c0", 3), DirNd(<<"d">>, 11), FileNd(<<"d", "x">>, "c0", 3),
                       DirNd(<<"da">>, 12), FileNd(<<"da", "y">>, "c0", 3) >>
                    \o (IF hasDM THEN << MfNode(DM, 0) >> ELSE <<>>)
-                   \o (IF hasDX THEN << MfNode(DX, 0) >> ELSE <<>>),
+                   \o (IF hasDX THEN << MfNode(DX, 0) >> ELSE <<>>)
+                   \o (IF extra = "gzgarbage" THEN << FileNd(DGZ, "c2", 5) >> ELSE <<>>),
          mfs |-> << Mf(Top, topEnts, TRUE, TRUE) >>
                  \o (IF hasDM THEN << Mf(DM, IF dms = "unreginvalid" THEN <<>> ELSE dmEnts,
                                          dms # "unreginvalid", dms \in {"reg", "regstale"}) >> ELSE <<>>)
-                 \o (IF hasDX THEN << Mf(DX, dxEnts, TRUE, TRUE) >> ELSE <<>>),
+                 \o (IF hasDX THEN << Mf(DX, dxEnts, TRUE, TRUE) >> ELSE <<>>)
+                 \o (IF extra = "gzgarbage" THEN << Mf(DGZ, <<>>, FALSE, FALSE) >> ELSE <<>>),
          top |-> Top ]
 
 Scenario(ast, xloc, xstale, dms, gone) == ScenarioX(ast, xloc, xstale, dms, gone, "none")
@@ -117,7 +125,7 @@ ScenariosX(extra) ==
     { ScenarioX(a, xl, xs, dms, g, extra) :
         a \in {"none", "ok", "dupeq"},
         xl \in (IF extra = "hashsplit" THEN {"both"} ELSE XLocs \ {"extra"}),
-        xs \in BOOLEAN, dms \in {"reg", "regstale"}, g \in BOOLEAN }
+        xs \in BOOLEAN, dms \in (IF extra = "dmdata" THEN {"unreg"} ELSE {"reg", "regstale"}), g \in BOOLEAN }
 
 (* ---------------------------------------------------------------------- *)
 (* helpers on the loader's memory                                            *)
@@ -143,7 +151,8 @@ TrueEntry(e, f) ==     \* update_entry_for_path: size and digests of the file no
 
 Init ==
     /\ \/ scn0 \in Scenarios /\ hreq = <<"SHA1">> /\ sub \in { <<>>, <<"d">> }
-       \/ \E x \in {"mfdata", "mfdata2"} : scn0 \in ScenariosX(x) /\ hreq = <<"SHA1">> /\ sub \in { <<>>, <<"d">> }
+       \/ \E x \in {"mfdata", "mfdata2", "gzgarbage", "dmdata"} :
+             scn0 \in ScenariosX(x) /\ hreq = <<"SHA1">> /\ sub \in { <<>>, <<"d">> }
        \/ scn0 \in ScenariosX("ignd") /\ hreq = <<"SHA1">> /\ sub = <<>>
        \/ scn0 \in ScenariosX("hashsplit") /\ hreq = <<"MD5", "SHA1">> /\ sub \in { <<>>, <<"d">> }
     /\ scn = scn0
@@ -259,13 +268,16 @@ ScanFiles(fs, m, ed, upd, st, new) ==
     IF fs = <<>> THEN [m |-> m, ed |-> ed, upd |-> upd, st |-> st, new |-> new]
     ELSE LET f == fs[1] IN
          IF f \in DOMAIN ed THEN
-            LET x == ed[f]  e == m[x[1]][x[2]]
+            LET x == ed[f]  e0 == m[x[1]][x[2]]
+                \* listed as a plain file so far, but just adopted as a Manifest: referenced as one
+                e == IF AdoptListed /\ e0.tag \notin {"MANIFEST", "IGNORE"} /\ f \in newmf
+                     THEN [e0 EXCEPT !.tag = "MANIFEST"] ELSE e0
                 st2 == IF e.tag = "MANIFEST" THEN Append(st, f) ELSE st
                 e2 == TrueEntry(e, f)
                 ed2 == [g \in DOMAIN ed \ {f} |-> ed[g]]
             IN IF e.tag = "IGNORE" THEN ScanFiles(Tail(fs), m, ed2, upd, st, new)
                ELSE ScanFiles(Tail(fs), [m EXCEPT ![x[1]][x[2]] = e2], ed2,
-                              IF Strip(e2) # Strip(e) THEN upd \cup {x[1]} ELSE upd, st2, new)
+                              IF Strip(e2) # Strip(e0) THEN upd \cup {x[1]} ELSE upd, st2, new)
          ELSE IF Len(f) = 1 /\ f[1] \in {"Manifest", "Manifest.gz"} THEN ScanFiles(Tail(fs), m, ed, upd, st, new)
          ELSE IF f \in newmf THEN ScanFiles(Tail(fs), m, ed, upd, Append(st, f), Append(new, <<"MANIFEST", f>>))
          ELSE ScanFiles(Tail(fs), m, ed, upd, st, Append(new, <<"DATA", f>>))
@@ -356,8 +368,9 @@ SaveOne ==
            alive == [k \in DOMAIN SelectSeq(ents1, LAMBDA e : ~e.dead) |-> Strip(SelectSeq(ents1, LAMBDA e : ~e.dead)[k])]
            newver == ver[mp] + 1
            wantgz == wm # -1 /\ mp # Top /\ 10 * Len(alive) >= wm
-           rename == wm # -1 /\ mp # Top /\ (IsGz(mp) # wantgz) /\ ~IsGz(mp)      \* plain -> gz only in this model
            np == GzName(mp)
+           rename == /\ wm # -1 /\ mp # Top /\ (IsGz(mp) # wantgz) /\ ~IsGz(mp)   \* plain -> gz only in this model
+                     /\ (NoOverwriteOnRename => ~HasNode(scn, np))                 \* never onto an existing file
        IN /\ mem' = [mem EXCEPT ![mp] = ents1]
           /\ fixed' = fixed \cup targets
           /\ IF ~dirty THEN UNCHANGED <<scn, ver, renamed, updated>>
@@ -408,10 +421,16 @@ C10_Preserved ==
                  /\ OutsideSet(scn0, sub, FALSE) = OutsideSet(scn, sub, FALSE)
                  /\ { n \in NodeSet(scn0) : n.p[Len(n.p)] \notin {"Manifest", "Manifest.gz", "Manifest.extra", "Manifest.extra.gz"} }
                     = { n \in NodeSet(scn) : n.p[Len(n.p)] \notin {"Manifest", "Manifest.gz", "Manifest.extra", "Manifest.extra.gz"} }
+(* files that have a Manifest name but are no Manifest belong to the user *)
+C10_ForeignKept ==
+    Completed => \A n \in NodeSet(scn0) :
+        (\E m \in MfSet(scn0) : m.p = n.p /\ ~m.ok) => n \in NodeSet(scn)
 C18_NoInternal == result # "internal"
 C13_Watermark ==
     Completed /\ wm # -1 =>
-        \A m \in MfSet(scn) : (ver[m.p] > 0 /\ m.p # Top) => ((m.comp # "plain") <=> (m.usize >= wm))
+        \A m \in MfSet(scn) : (ver[m.p] > 0 /\ m.p # Top) =>
+            \/ ((m.comp # "plain") <=> (m.usize >= wm))
+            \/ (m.comp = "plain" /\ HasNode(scn0, GzName(m.p)))           \* the compressed name was taken
 (* the prior states in which the known finding F14 applies (see DESIGN 17) *)
 F14State == \E m \in MfSet(scn0) : \E i \in DOMAIN m.entries : \E j \in DOMAIN m.entries :
                /\ i < j /\ m.entries[i].tag = m.entries[j].tag /\ m.entries[i].p = m.entries[j].p
